@@ -55,7 +55,13 @@ func c03Draw(rt *rapid.T) c03Case {
 	p := c03DrawProg(rt, "prog", 3, 8)
 	c := c03Case{Prog: p, Calls: c03DrawCalls(rt, len(p.Funcs), 3, 15)}
 	c.Restarts = make([]bool, len(c.Calls))
-	if rapid.Bool().Draw(rt, "restarts") {
+	// half of the cases in the thorough tier, a quarter in the quick tier (the
+	// quick budget cannot pay more rebuilds on the loaded machine)
+	pr := 1
+	if os.Getenv("VERIF_TIER") != "thorough" {
+		pr = 3
+	}
+	if rapid.IntRange(0, pr).Draw(rt, "restarts") == 0 {
 		// cold caches: a full application rebuild at a drawn call boundary (a
 		// rebuild re-preprocesses every stdlib: 1-2 s idle, 10-40 s when the
 		// machine is loaded), and a second one before the final Dump()
@@ -241,7 +247,7 @@ func c03Exec(ctx *vk.Ctx, c c03Case) error {
 	return nil
 }
 
-const c03Rule = "rapid: typed grammar of realm programs (1-3 declared structs with methods, 5-8 package variables of nesting depth <= 3 over int/string/bool/uint8, arrays, slices incl. sub-slices of one backing array and spare capacity, maps, pointers incl. pointers into arrays/struct fields/slice elements, closures capturing variables, pointers and slices, an interface holding declared pointer/value types), init() with alias-making statements, 3-8 crossing functions of 2-5 guarded statements over generated places, 3-15 calls with arguments; P = one MsgCall tx per call (objects reloaded every tx; application rebuilt from the DB at one drawn call boundary (thorough tier: and again before the final Dump()) in half of the cases), M = the whole sequence in memory at the end of init() of the same package deployed on a second chain (nothing persisted before or between the calls); non-trivial = the program text has an alias-making construct and some call changed the rendering of a variable that the called function does not write through (a write through one alias, made after a persistence boundary, read through another)"
+const c03Rule = "rapid: typed grammar of realm programs (1-3 declared structs with methods, 5-8 package variables of nesting depth <= 3 over int/string/bool/uint8, arrays, slices incl. sub-slices of one backing array and spare capacity, maps, pointers incl. pointers into arrays/struct fields/slice elements, closures capturing variables, pointers and slices, an interface holding declared pointer/value types), init() with alias-making statements, 3-8 crossing functions of 2-5 guarded statements over generated places, 3-15 calls with arguments; P = one MsgCall tx per call (objects reloaded every tx; application rebuilt from the DB at one drawn call boundary (thorough tier: and again before the final Dump()) in half of the cases, a quarter in the quick tier), M = the whole sequence in memory at the end of init() of the same package deployed on a second chain (nothing persisted before or between the calls); non-trivial = the program text has an alias-making construct and some call changed the rendering of a variable that the called function does not write through (a write through one alias, made after a persistence boundary, read through another)"
 
 func TestC03_Transparency(t *testing.T) {
 	vk.Run(t, vk.Spec[c03Case]{ID: "C03", Name: "TestC03_Transparency", Rule: c03Rule, Draw: c03Draw, Exec: c03Exec})
